@@ -3,11 +3,37 @@ From Coq Require Import List Arith ZArith Lia Bool.
 Import ListNotations.
 From GV Require Import Sched Events CowModel CowBase CowHeap.
 Local Open Scope Z_scope.
-Lemma wr_assign_races g x v :
-  races (wr_assign g x v) =
+Lemma sl_assign_races g x v :
+  races (sl_assign g x v) =
   ((if Nat.eqb (refs (heap (incref g v) (cvid (cp g x)))) 1 then (if freed (heap (incref g v) (cvid (cp g x))) then 1 else 0) else 0) +
-   (((if (0 <? nrd (cp g x))%Z then 1 else 0) + (if wopen (cp g x) then 1 else 0)) + races g))%nat.
-Proof. unfold wr_assign. rewrite decref_races. destruct x; reflexivity. Qed.
+   races g)%nat.
+Proof. unfold sl_assign. rewrite decref_races. destruct x; reflexivity. Qed.
+
+(* real (observable) read windows on the two shared_ptr objects: between K_RD_BEGIN and K_RD_END of lock_shared's copy *)
+Definition xrdo (x : bool) (l : loc) : nat := match at_ l with S_re => if Bool.eqb (rside l) x then 1 else 0 | _ => 0 end%nat.
+Lemma xrdo_step t c g l g' l' es x :
+  tstep t c g l = Some (g', l', es) ->
+  xrd (cp g' x) + Z.of_nat (xrdo x l) = xrd (cp g x) + Z.of_nat (xrdo x l').
+Proof.
+  intros Hs. destruct l as [pr p ws ss xs s rcn rsd v lr lc tm ed ba nd].
+  destruct p; step_cases Hs; unfold xrdo, ctr, rd_open, rd_close, wr_open, wr_close, srd_end, cp in *; cbn in *;
+    autorewrite with cow; cbn; try lia.
+  all: try (destruct x; bools; lia).
+Qed.
+Lemma xrdo_le_rdo x l : (xrdo x l <= rdo x l)%nat.
+Proof. unfold xrdo, rdo. destruct (at_ l); cbn; try lia; destruct (Bool.eqb (rside l) x); lia. Qed.
+(* the version a copy holds changes only by the writer's assignment to the copy readers are not directed to *)
+Lemma copy_stable t c g l g' l' es x :
+  tstep t c g l = Some (g', l', es) -> (ipc (at_ l) = true -> wok g l) ->
+  cvid (cp g' x) = cvid (cp g x) \/ (gph g = PA /\ x = negb (rl g)).
+Proof.
+  intros Hs Hw. destruct l as [pr p ws ss xs s rcn rsd v lr lc tm ed ba nd].
+  destruct p; step_cases Hs; unfold rd_open, rd_close, wr_open, wr_close, srd_end, cp, wok, oth in *; cbn in *;
+    autorewrite with cow; cbn; auto.
+  all: try (destruct x; bools; auto; fail).
+  all: specialize (Hw eq_refl); destr_and.
+  all: destruct x; destruct lr; destruct (rl g) eqn:Erl; cbn in *; try discriminate; auto.
+Qed.
 
 (* no payload fault, no use of a destroyed version, no race on the shared_ptr copies, no double destruction *)
 Lemma nofault_step t c g l g' l' es :
@@ -16,17 +42,19 @@ Lemma nofault_step t c g l g' l' es :
   (forall sn, In (Some sn) (ssl l) -> (1 <= refs (heap g (sv sn)))%nat) ->
   (forall x, (1 <= refs (heap g (cvid (cp g x))))%nat) ->
   ((at_ l = W_ldr \/ (at_ l = W_d2 /\ ctr g (lcl l) = 0)) -> nrd (oth g) <= 0) ->
+  ((at_ l = W_a1b \/ at_ l = W_a2b) -> xrd (oth g) <= 0) ->
+  (at_ l = S_rb -> xwr (cp g (rside l)) = false) ->
   faults g' = faults g /\ races g' = races g.
 Proof.
-  intros Hs (Hn1 & Hn0 & Hk) Hi (Hv1 & Hv2) Hok Hw Hsn Hcp Hnr.
+  intros Hs (Hn1 & Hn0 & Hk) Hi (Hv1 & Hv2 & Hv3) Hok Hw Hsn Hcp Hnr Hxr Hxw.
   assert (Hnf : forall v, (1 <= refs (heap g v))%nat -> freed (heap g v) = false /\ vdirty (heap g v) = false).
   { intros v Hr. split.
     - destruct (freed (heap g v)) eqn:E; [|reflexivity]. pose proof (H_freed _ Hi v E). lia.
     - apply (H_pub _ Hi), (H_refs _ Hi), Hr. }
   pose proof (Hcp true) as Hcp1. pose proof (Hcp false) as Hcp0.
   assert (Hcm : (1 <= refs (heap g (committed g)))%nat) by (rewrite <- Hv1; apply Hcp).
-  destruct l as [pr p ws ss s rcn rsd cv0 lr lc tm ed ba nd]. set (PC := p).
-  destruct p; step_cases Hs; unfold owns in *; cbn in Hk, Hn0, Hok, Hw, Hnr; try (split; reflexivity).
+  destruct l as [pr p ws ss xs s rcn rsd cv0 lr lc tm ed ba nd]. set (PC := p).
+  destruct p; step_cases Hs; unfold owns in *; cbn in Hk, Hn0, Hok, Hw, Hnr, Hxr, Hxw; try (split; reflexivity).
   all: try (specialize (Hn0 eq_refl)); try (specialize (Hw eq_refl)); try (specialize (Hok eq_refl)).
   all: try match goal with H : nth_error ?w _ = Some (Some ?h), Hok : hasw ?w = true -> _ |- _ =>
              specialize (Hok (In_hasw _ _ (nth_error_In _ _ H))); destruct Hok as (A & B & C);
@@ -41,21 +69,24 @@ Proof.
   all: destruct (Hnf _ Hcp1) as [? ?]; destruct (Hnf _ Hcp0) as [? ?].
   all: try congruence.
   all: try (specialize (Hnr (or_introl eq_refl))).
+  all: try (specialize (Hxr (or_introl eq_refl))); try (specialize (Hxr (or_intror eq_refl))); try (specialize (Hxw eq_refl)).
   all: try match goal with H : (_ =? 0) = true |- _ => pose proof (proj1 (Z.eqb_eq _ _) H) as Hz0; try (specialize (Hnr (or_intror (conj eq_refl Hz0)))) end.
-  all: unfold rd_open, rd_close, wr_close, cp, oth, wok in *; cbn in *; autorewrite with cow; cbn.
-  all: rewrite ?wr_assign_races, ?decref_races, ?incref_heap; unfold fupd, cp; cbn.
+  all: unfold rd_open, rd_close, wr_open, wr_close, srd_end, cp, oth, wok in *; cbn in *; autorewrite with cow; cbn.
+  all: rewrite ?sl_assign_races, ?decref_races, ?incref_heap; unfold fupd, cp; cbn.
   all: repeat match goal with
               | H : freed ?x = false |- context [freed ?x] => rewrite !H
               | H : vdirty ?x = _ |- context [vdirty ?x] => rewrite !H
               | H : vrd ?x = _ |- context [vrd ?x] => rewrite !H
               | H : wopen ?x = false |- context [wopen ?x] => rewrite !H
+              | H : xwr ?x = false |- context [xwr ?x] => rewrite !H
               end.
   all: cbn.
   all: try (split; reflexivity).
-  all: try (eqbs; cbn; try (destruct (rl g)); try (destruct lr); cbn in *; destr_and;
+  all: try (eqbs; cbn; try (destruct (rl g)); try (destruct lr); try (destruct rsd); cbn in *; destr_and;
             repeat match goal with
               | H : freed ?x = false |- context [freed ?x] => rewrite !H
               | H : wopen ?x = false |- context [wopen ?x] => rewrite !H
+              | H : xwr ?x = false |- context [xwr ?x] => rewrite !H
               end; cbn;
             repeat match goal with |- context [(0 <? ?z)%Z] => destruct (Z.ltb_spec 0 z) end;
             split; solve [reflexivity | lia | exfalso; lia | congruence]).
@@ -65,30 +96,64 @@ Qed.
 Lemma ssl_step t c g l g' l' es sn :
   tstep t c g l = Some (g', l', es) -> In (Some sn) (ssl l') ->
   In (Some sn) (ssl l) \/
-  (at_ l = S_ldr /\ sn = Snap (cvid (cp g (rl g))) (need l) (content (heap g (cvid (cp g (rl g)))))).
+  (at_ l = S_re /\ sn = Snap (cvid (cp g (rside l))) (need l) (content (heap g (cvid (cp g (rside l)))))).
 Proof.
-  intros Hs Hin. destruct l as [pr p ws ss s rcn rsd cv0 lr lc tm ed ba nd].
+  intros Hs Hin. destruct l as [pr p ws ss xs s rcn rsd cv0 lr lc tm ed ba nd].
   destruct p; step_cases Hs; cbn in *; auto.
   all: apply In_upd in Hin; destruct Hin as [E|Hin]; auto; try discriminate.
   all: inversion E; subst; auto.
   all: left; eapply nth_error_In; eauto.
 Qed.
 
+(* a reader inside its window on copy [rside]: the version that copy holds is recent enough for it *)
+Definition rvok (g : glob) (l : loc) : Prop :=
+  match at_ l with
+  | S_rb | S_re => (need l <= vseq (heap g (cvid (cp g (rside l)))))%nat
+  | _ => True
+  end.
+
 Lemma snaps_step t c g l g' l' es :
-  tstep t c g l = Some (g', l', es) -> hinv g -> vis_ok g -> nok g l ->
+  tstep t c g l = Some (g', l', es) -> hinv g -> rvok g l ->
   (is_we (at_ l) = true -> published (heap g (cv l)) = false) ->
   (forall sn, In (Some sn) (ssl l) -> snok g sn /\ published (heap g (sv sn)) = true) ->
   (forall x, (1 <= refs (heap g (cvid (cp g x))))%nat) ->
   forall sn, In (Some sn) (ssl l') -> snok g' sn.
 Proof.
-  intros Hs Hi (Hv1 & Hv2) Hn Hwe Hold Hcp sn Hin.
+  intros Hs Hi Hrv Hwe Hold Hcp sn Hin.
   destruct (ssl_step _ _ _ _ _ _ _ _ Hs Hin) as [Ho|[Hp ->]].
   - destruct (Hold _ Ho) as [[S1 S2] Sp].
     destruct (pub_stable _ _ _ _ _ _ _ (sv sn) Hs Hi Hwe Sp) as (C1 & C2 & _). unfold snok. split; [congruence|lia].
-  - assert (Sp : published (heap g (committed g)) = true) by (rewrite <- Hv1; apply (H_refs _ Hi), Hcp).
-    destruct (pub_stable _ _ _ _ _ _ _ (committed g) Hs Hi Hwe Sp) as (C1 & C2 & _).
-    unfold snok. cbn. rewrite Hv1. split; [exact C1|].
-    unfold nok in Hn. rewrite Hp in Hn. destruct (H_com _ Hi) as (E1 & E2 & _). lia.
+  - assert (Sp : published (heap g (cvid (cp g (rside l)))) = true) by (apply (H_refs _ Hi), Hcp).
+    destruct (pub_stable _ _ _ _ _ _ _ _ Hs Hi Hwe Sp) as (C1 & C2 & _).
+    unfold snok. cbn. split; [exact C1|]. unfold rvok in Hrv. rewrite Hp in Hrv. lia.
+Qed.
+
+(* the guarantee of a reader window is established at the load of readingLeft and kept by every step *)
+Lemma rvok_own t c g l g' l' es :
+  tstep t c g l = Some (g', l', es) -> hinv g -> vis_ok g -> nok g l -> rvok g l -> rvok g' l'.
+Proof.
+  intros Hs Hi (Hv1 & _) Hn Hrv. destruct (H_com _ Hi) as (E1 & E2 & _).
+  destruct l as [pr p ws ss xs s rcn rsd cv0 lr lc tm ed ba nd].
+  destruct p; step_cases Hs; unfold rvok, nok, rd_open, srd_end, cp in *; cbn in *; autorewrite with cow; cbn; auto.
+  all: try (destruct (rl g); cbn in *; rewrite Hv1; lia).
+  all: try (destruct rsd; cbn in *; exact Hrv).
+Qed.
+Lemma rvok_other t c g l g' l' es (r : loc) :
+  tstep t c g l = Some (g', l', es) -> hinv g -> (ipc (at_ l) = true -> wok g l) ->
+  (is_we (at_ l) = true -> published (heap g (cv l)) = false) ->
+  (forall x, (1 <= refs (heap g (cvid (cp g x))))%nat) ->
+  (rwpc (at_ r) = true -> hok g r) -> rvok g r -> rvok g' r.
+Proof.
+  intros Hs Hi Hw Hwe Hcp Hk Hrv. unfold rvok in *.
+  assert (Hr : rwpc (at_ r) = true -> (need r <= vseq (heap g (cvid (cp g (rside r)))))%nat ->
+               (need r <= vseq (heap g' (cvid (cp g' (rside r)))))%nat).
+  { intros Er Hle. specialize (Hk Er).
+    assert (Sp : published (heap g (cvid (cp g (rside r)))) = true) by (apply (H_refs _ Hi), Hcp).
+    destruct (pub_stable _ _ _ _ _ _ _ _ Hs Hi Hwe Sp) as (_ & C2 & _).
+    destruct (copy_stable _ _ _ _ _ _ _ (rside r) Hs Hw) as [E|[Hpa Ex]].
+    - rewrite E. lia.
+    - exfalso. unfold hok in Hk. rewrite Hpa in Hk. rewrite Hk in Ex. destruct (rl g); discriminate. }
+  destruct (at_ r); auto.
 Qed.
 
 (* ---------- sums over the thread list ---------- *)
@@ -125,6 +190,8 @@ Record Inv (g : glob) (ls : list loc) : Prop := {
   I_rw : forall u l, nth_error ls u = Some l -> rwpc (at_ l) = true -> hok g l;
   I_cnt : forall k, ctr g k = Z.of_nat (list_sum (map (reg k) ls));
   I_nrd : forall x, nrd (cp g x) = Z.of_nat (list_sum (map (rdo x) ls));
+  I_xrd : forall x, xrd (cp g x) = Z.of_nat (list_sum (map (xrdo x) ls));
+  I_rv : forall u l, nth_error ls u = Some l -> rvok g l;
   I_heap : hinv g;
   I_refs : forall v, refs (heap g v) = (cpc g v + list_sum (map (snc v) ls))%nat;
   I_ook : forall u l, nth_error ls u = Some l -> owns l = true -> ook g l;
@@ -165,21 +232,60 @@ Section Derived.
   Lemma rwpc_rgpc p : rwpc p = true -> rgpc p = true.
   Proof. destruct p; cbn; congruence. Qed.
   (* when the writer assigns a copy, no reader window is open on it *)
+  (* outside the flip .. second drain phases every reader window is on the copy readers are directed to *)
+  Lemma nrd_other_pa : gph g = PA -> nrd (oth g) <= 0.
+  Proof.
+    intros Hph. unfold oth. rewrite (I_nrd _ _ HI).
+    rewrite all_zero_sum; [cbn; lia|]. intros v lv Hv. unfold rdo.
+    destruct (rwpc (at_ lv)) eqn:Er; [|reflexivity]. cbn.
+    pose proof (I_rw _ _ HI _ _ Hv Er) as Hk. unfold hok in Hk. rewrite Hph in Hk. rewrite Hk.
+    destruct (rl g); reflexivity.
+  Qed.
   Lemma nrd_other t l : nth_error ls t = Some l ->
     (at_ l = W_ldr \/ (at_ l = W_d2 /\ ctr g (lcl l) = 0)) -> nrd (oth g) <= 0.
   Proof.
-    intros Hl Hp. unfold oth. rewrite (I_nrd _ _ HI).
+    intros Hl Hp.
     assert (Hh : ipc (at_ l) = true) by (destruct Hp as [->|[-> _]]; reflexivity).
     pose proof (I_w _ _ HI _ _ Hl Hh) as Hw. unfold wok in Hw.
+    destruct Hp as [Hp|[Hp Hz]]; rewrite Hp in Hw.
+    { destruct Hw as (Hph & _). apply nrd_other_pa; exact Hph. }
+    unfold oth. rewrite (I_nrd _ _ HI).
     rewrite all_zero_sum; [cbn; lia|]. intros v lv Hv. unfold rdo.
     destruct (rwpc (at_ lv)) eqn:Er; [|reflexivity]. cbn.
     pose proof (I_rw _ _ HI _ _ Hv Er) as Hk. unfold hok in Hk.
     assert (Es : rside lv = rl g).
-    { destruct Hp as [Hp|[Hp Hz]]; rewrite Hp in Hw.
-      - destruct Hw as (Hph & _). rewrite Hph in Hk. exact Hk.
-      - destruct Hw as (_ & Hph & _ & _ & _ & Hgl). rewrite Hph in Hk. destruct Hk as [Hk|Hk]; [exact Hk|exfalso].
-        apply (not_registered _ _ _ Hz Hv (rwpc_rgpc _ Er)). congruence. }
+    { destruct Hw as (_ & Hph & _ & _ & _ & Hgl & _). rewrite Hph in Hk. destruct Hk as [Hk|Hk]; [exact Hk|exfalso].
+      apply (not_registered _ _ _ Hz Hv (rwpc_rgpc _ Er)). congruence. }
     rewrite Es. destruct (rl g); reflexivity.
+  Qed.
+  (* the observable read windows are inside the registration windows *)
+  Lemma xrd_le_nrd x : xrd (cp g x) <= nrd (cp g x).
+  Proof.
+    rewrite (I_xrd _ _ HI), (I_nrd _ _ HI).
+    pose proof (sum_mono (xrdo x) (rdo x) ls (fun l _ => xrdo_le_rdo x l)). lia.
+  Qed.
+  Lemma xrd_other t l : nth_error ls t = Some l -> (at_ l = W_a1b \/ at_ l = W_a2b) -> xrd (oth g) <= 0.
+  Proof.
+    intros Hl Hp.
+    assert (Hh : ipc (at_ l) = true) by (destruct Hp as [->| ->]; reflexivity).
+    pose proof (I_w _ _ HI _ _ Hl Hh) as Hw. unfold wok in Hw.
+    assert (Hph : gph g = PA) by (destruct Hp as [Hp|Hp]; rewrite Hp in Hw; tauto).
+    pose proof (nrd_other_pa Hph). pose proof (xrd_le_nrd (negb (rl g))). unfold oth in *. lia.
+  Qed.
+  (* no write window is open on the shared_ptr object a reader is about to copy *)
+  Lemma xwr_reader t l : nth_error ls t = Some l -> rwpc (at_ l) = true -> xwr (cp g (rside l)) = false.
+  Proof.
+    intros Hl Hp. pose proof (I_rw _ _ HI _ _ Hl Hp) as Hk. unfold hok in Hk.
+    destruct (I_vis _ _ HI) as (_ & _ & V3).
+    assert (Hoth : gph g <> PA -> xwr (oth g) = false).
+    { intros Hne. destruct (imtx g) as [a|] eqn:Em.
+      - destruct (I_iheld _ _ HI _ Em) as [la [Ha Hi]]. pose proof (I_w _ _ HI _ _ Ha Hi) as Hw. unfold wok in Hw.
+        destruct (at_ la); try discriminate; destr_and; try congruence.
+      - destruct (I_idle _ _ HI Em) as (E & _). congruence. }
+    destruct (Bool.eqb (rside l) (rl g)) eqn:Eb.
+    - apply eqb_prop in Eb. rewrite Eb. exact V3.
+    - assert (Ex : rside l = negb (rl g)) by (destruct (rside l), (rl g); cbn in Eb; try discriminate; reflexivity).
+      rewrite Ex. apply Hoth. intros Hpa. rewrite Hpa in Hk. rewrite Hk in Eb. rewrite Bool.eqb_reflx in Eb. discriminate.
   Qed.
 End Derived.
 
@@ -208,6 +314,9 @@ Proof.
     intros u l H. destruct (P _ _ H) as [p ->]. reflexivity.
   - intros y. rewrite all_zero_sum; [destruct y; reflexivity|].
     intros u l H. destruct (P _ _ H) as [p ->]. reflexivity.
+  - intros y. rewrite all_zero_sum; [destruct y; reflexivity|].
+    intros u l H. destruct (P _ _ H) as [p ->]. reflexivity.
+  - intros u l H. destruct (P _ _ H) as [p ->]. exact I.
   - constructor; cbn.
     + intros v. destruct v; discriminate.
     + intros v. destruct v; cbn; [reflexivity|lia].
@@ -313,6 +422,13 @@ Proof.
   - (* open reader windows *)
     intros x. pose proof (rdo_step _ _ _ _ _ _ _ x Hs) as E.
     pose proof (sum_upd (rdo x) ls t l l' Hl) as E2. pose proof (I_nrd _ _ HI x). lia.
+  - (* observable read windows on the two shared_ptr objects *)
+    intros x. pose proof (xrdo_step _ _ _ _ _ _ _ x Hs) as E.
+    pose proof (sum_upd (xrdo x) ls t l l' Hl) as E2. pose proof (I_xrd _ _ HI x). lia.
+  - (* what a reader window guarantees *)
+    intros u lu Hu. apply nth_upd in Hu. destruct Hu as [(<- & -> & _)|(Hne & Hu)].
+    + eapply rvok_own; eauto. apply (I_rv _ _ HI _ _ Hl).
+    + eapply rvok_other; eauto. intros Er. apply (I_rw _ _ HI _ _ Hu Er). apply (I_rv _ _ HI _ _ Hu).
   - (* versions *)
     eapply hinv_step; eauto.
     + intros [Hp|Hp].
@@ -341,14 +457,15 @@ Proof.
   - exact K2.
   - (* snapshots *)
     intros u lu sn Hu Hin. apply nth_upd in Hu. destruct Hu as [(<- & -> & _)|(Hne & Hu)].
-    + eapply snaps_step; eauto. intros sn0 Hin0. split; [apply (I_snap _ _ HI _ _ _ Hl Hin0)|].
+    + eapply snaps_step; eauto. { apply (I_rv _ _ HI _ _ Hl). } intros sn0 Hin0. split; [apply (I_snap _ _ HI _ _ _ Hl Hin0)|].
       apply (H_refs _ Hh), Hsn, Hin0.
     + destruct (I_snap _ _ HI _ _ _ Hu Hin) as [S1 S2].
       assert (Sp : published (heap g (sv sn)) = true) by (eapply counted_pub; eauto; eapply snap_counted; eauto).
       destruct (pub_stable _ _ _ _ _ _ _ (sv sn) Hs Hh Hwe Sp) as (C1 & C2 & _). split; [congruence|lia].
   - (* faults *)
     destruct (I_nofault _ _ HI) as [F1 F2].
-    destruct (nofault_step _ _ _ _ _ _ _ Hs Hk Hh Hv Hok Hw Hsn Hcp (nrd_other _ _ HI _ _ Hl)) as [E1 E2].
+    destruct (nofault_step _ _ _ _ _ _ _ Hs Hk Hh Hv Hok Hw Hsn Hcp (nrd_other _ _ HI _ _ Hl) (xrd_other _ _ HI _ _ Hl)
+                (fun E => xwr_reader _ _ HI _ _ Hl ltac:(rewrite E; reflexivity))) as [E1 E2].
     split; congruence.
 Qed.
 
@@ -489,8 +606,8 @@ Lemma committed_tstep t c g l g' l' es : tstep t c g l = Some (g', l', es) ->
   (committed g' = committed g /\ applied g' = applied g /\ ncommit g' = ncommit g) \/
   (at_ l = W_str /\ committed g' = cv l /\ applied g' = applied g ++ ced l /\ ncommit g' = S (ncommit g)).
 Proof.
-  intros Hs. destruct l as [pr p ws ss s rcn rsd cv0 lr lc tm ed ba nd].
-  destruct p; step_cases Hs; unfold rd_open, rd_close, wr_close; cbn; autorewrite with cow; cbn; auto.
+  intros Hs. destruct l as [pr p ws ss xs s rcn rsd cv0 lr lc tm ed ba nd].
+  destruct p; step_cases Hs; unfold rd_open, rd_close, wr_open, wr_close, srd_end; cbn; autorewrite with cow; cbn; auto.
 Qed.
 (* as long as a write handle is live the committed version does not change *)
 Lemma base_stable nw ns x pl progs s u l v tc :
@@ -519,8 +636,8 @@ Proof.
   assert (Sp : published (heap g (committed g)) = true) by (rewrite <- Hv1; apply (H_refs _ Hh), (copy_counted _ _ HI)).
   destruct (pub_stable _ _ _ _ _ _ _ (committed g) Hs Hh (we_private _ _ _ _ HI Hl) Sp) as (C1 & _).
   assert (Ei : initv g' = initv g).
-  { clear - Hs. destruct l as [pr p ws ss s rcn rsd cv0 lr lc tm ed ba nd].
-    destruct p; step_cases Hs; unfold rd_open, rd_close, wr_close; cbn; autorewrite with cow; cbn; auto. }
+  { clear - Hs. destruct l as [pr p ws ss xs s rcn rsd cv0 lr lc tm ed ba nd].
+    destruct p; step_cases Hs; unfold rd_open, rd_close, wr_open, wr_close, srd_end; cbn; autorewrite with cow; cbn; auto. }
   split; [congruence|].
   destruct (committed_tstep _ _ _ _ _ _ _ Hs) as [(E1 & E2 & _)|(Hp & E1 & E2 & _)].
   - rewrite E1, E2, C1. exact N2.
@@ -601,18 +718,38 @@ Proof.
   intros HR Hl Hin. pose proof (R_inv _ _ _ _ _ _ HR) as HI.
   destruct (I_snap _ _ HI _ _ _ Hl Hin) as [_ S2]. split; [exact S2|apply (H_seq _ (I_heap _ _ HI))].
 Qed.
-(* the snapshot taken by a lock_shared is the version committed at its load of readingLeft *)
+(* the snapshot taken by a lock_shared is the version held by the copy it was directed to at its load of
+   readingLeft (the committed version of that moment, or - if a commit flips readingLeft while the reader is inside
+   its window - still that version: the writer cannot touch that copy before the reader has deregistered); it is
+   at least as recent as every release that had returned when the lock_shared was invoked *)
 Lemma lock_shared_takes_committed nw ns x pl progs s t c l g' l' es :
+  R nw ns x pl progs s -> nth_error (thr s) t = Some l -> at_ l = S_re ->
+  tstep t c (gl s) l = Some (g', l', es) ->
+  let v := cvid (cp (gl s) (rside l)) in
+  nth_error (ssl l') (sl l) = Some (Some (Snap v (need l) (content (heap (gl s) v)))) /\
+  (need l <= vseq (heap (gl s) v))%nat /\ (vseq (heap (gl s) v) <= ncommit (gl s))%nat /\
+  published (heap (gl s) v) = true /\ es = [E K_RD_END (O_SL (rside l)) 0].
+Proof.
+  intros HR Hl Hp Hs v. pose proof (R_inv _ _ _ _ _ _ HR) as HI.
+  destruct (I_loc _ _ HI _ _ Hl) as [(_ & _ & Hk) _]. rewrite Hp in Hk.
+  pose proof (I_rv _ _ HI _ _ Hl) as Hrv. unfold rvok in Hrv. rewrite Hp in Hrv.
+  unfold tstep in Hs. rewrite Hp in Hs. inversion Hs; subst. cbn.
+  repeat split; auto.
+  - apply (nth_upd_eq _ _ _ _ Hk).
+  - apply (H_seq _ (I_heap _ _ HI)).
+  - apply (H_refs _ (I_heap _ _ HI)), (copy_counted _ _ HI).
+Qed.
+(* ... and at the load of readingLeft that copy holds the committed version *)
+Lemma lock_shared_directed nw ns x pl progs s t c l g' l' es :
   R nw ns x pl progs s -> nth_error (thr s) t = Some l -> at_ l = S_ldr ->
   tstep t c (gl s) l = Some (g', l', es) ->
-  nth_error (ssl l') (sl l) = Some (Some (Snap (committed (gl s)) (need l) (content (heap (gl s) (committed (gl s)))))) /\
+  at_ l' = S_rb /\ rside l' = rl (gl s) /\ cvid (cp (gl s) (rl (gl s))) = committed (gl s) /\
   vseq (heap (gl s) (committed (gl s))) = ncommit (gl s) /\ (need l <= nret (gl s))%nat.
 Proof.
   intros HR Hl Hp Hs. pose proof (R_inv _ _ _ _ _ _ HR) as HI.
-  destruct (I_loc _ _ HI _ _ Hl) as [(_ & _ & Hk) Hn]. rewrite Hp in Hk. unfold nok in Hn. rewrite Hp in Hn.
+  destruct (I_loc _ _ HI _ _ Hl) as [_ Hn]. unfold nok in Hn. rewrite Hp in Hn.
   destruct (I_vis _ _ HI) as [V1 _]. destruct (H_com _ (I_heap _ _ HI)) as (E1 & _).
-  unfold tstep in Hs. rewrite Hp in Hs. inversion Hs; subst. cbn. rewrite V1.
-  repeat split; auto. apply (nth_upd_eq _ _ _ _ Hk).
+  unfold tstep in Hs. rewrite Hp in Hs. inversion Hs; subst. cbn. repeat split; auto.
 Qed.
 
 (* ---------- C04: cancel ---------- *)
@@ -640,7 +777,7 @@ Qed.
 
 (* ---------- C14: lock_shared and the snapshot operations never wait ---------- *)
 Definition spc (p : pc) : bool :=
-  match p with S_ldc | S_inc | S_ldr | S_dec | SR_rb | SR_re => true | _ => false end.
+  match p with S_ldc | S_inc | S_ldr | S_rb | S_re | S_dec | SR_rb | SR_re => true | _ => false end.
 Definition is_mutex_kind (k : Z) : bool := (K_LOCK <=? k) && (k <=? K_TRYLOCK_SH_FOR).
 Definition is_blocking_kind (k : Z) : bool :=
   is_mutex_kind k || (k =? K_CV_SLEEP) || (k =? K_YIELD) || (k =? K_SLEEP).
@@ -651,8 +788,8 @@ Definition is_snapshot_op (o : op) : bool :=
    every choice, whatever pc any writer is at *)
 Lemma read_wait_free t c g l : spc (at_ l) = true -> exists r, tstep t c g l = Some r.
 Proof.
-  intros Hp. destruct l as [pr p ws ss s rcn rsd cv0 lr lc tm ed ba nd]. cbn in Hp.
-  destruct p; try discriminate; unfold tstep, rd_begin, rd_end; cbn [at_]; eexists; reflexivity.
+  intros Hp. destruct l as [pr p ws ss xs s rcn rsd cv0 lr lc tm ed ba nd]. cbn in Hp.
+  destruct p; try discriminate; unfold tstep, rd_begin, rd_end, srd_begin; cbn [at_]; eexists; reflexivity.
 Qed.
 (* ... and so is the invocation of any operation *)
 Lemma invoke_enabled t c g l o r : at_ l = Idle -> prog l = o :: r -> exists r', tstep t c g l = Some r'.
@@ -662,34 +799,41 @@ Proof.
     repeat match goal with |- context [match ?x with _ => _ end] => destruct x end; eexists; reflexivity.
 Qed.
 
-(* lock_shared is exactly four own steps after its invocation (load countingLeft, increment, load
-   readingLeft + copy of the shared_ptr, decrement), whatever the other threads do in between
-   (g0 .. g3 arbitrary); it returns a snapshot of the version the directed copy held at the third step *)
-Lemma lock_shared_steps t c0 c1 c2 c3 g0 g1 g2 g3 l :
+(* lock_shared is exactly six own steps after its invocation (load countingLeft, increment, load readingLeft,
+   the two edges of the read window in which the shared_ptr object is copied, decrement), whatever the other
+   threads do in between (g0 .. g5 arbitrary); it returns a snapshot of the version the copy it was directed to
+   held at the closing edge of the window *)
+Lemma lock_shared_steps t c0 c1 c2 c3 c4 c5 g0 g1 g2 g3 g4 g5 l :
   at_ l = S_ldc -> nth_error (ssl l) (sl l) = Some None ->
-  exists l1 l2 l3 l4 g1' g2' g3' e0 e1 e2 e3,
+  exists l1 l2 l3 l4 l5 l6 g1' g2' g3' g4' g5' e0 e1 e2 es3 e4 e5,
     tstep t c0 g0 l = Some (g0, l1, [e0]) /\ ek e0 = K_LOAD /\ at_ l1 = S_inc /\ rcnt l1 = cl g0 /\
     tstep t c1 g1 l1 = Some (g1', l2, [e1]) /\ ek e1 = K_RMW /\ at_ l2 = S_ldr /\
     ctr g1' (cl g0) = ctr g1 (cl g0) + 1 /\
-    tstep t c2 g2 l2 = Some (g2', l3, [e2]) /\ ek e2 = K_LOAD /\ at_ l3 = S_dec /\
-    nth_error (ssl l3) (sl l) =
-      Some (Some (Snap (cvid (cp g2 (rl g2))) (need l) (content (heap g2 (cvid (cp g2 (rl g2))))))) /\
-    tstep t c3 g3 l3 = Some (g3', l4, [e3; ret_ev 0]) /\ ek e3 = K_RMW /\ at_ l4 = Idle /\
-    ctr g3' (cl g0) = ctr g3 (cl g0) - 1 /\ ssl l4 = ssl l3.
+    tstep t c2 g2 l2 = Some (g2', l3, [e2]) /\ ek e2 = K_LOAD /\ at_ l3 = S_rb /\ rside l3 = rl g2 /\
+    tstep t c3 g3 l3 = Some (g3', l4, es3) /\ at_ l4 = S_re /\ In (E K_RD_BEGIN (O_SL (rl g2)) 0) es3 /\
+    tstep t c4 g4 l4 = Some (g4', l5, [e4]) /\ e4 = E K_RD_END (O_SL (rl g2)) 0 /\ at_ l5 = S_dec /\
+    nth_error (ssl l5) (sl l) =
+      Some (Some (Snap (cvid (cp g4 (rl g2))) (need l) (content (heap g4 (cvid (cp g4 (rl g2))))))) /\
+    tstep t c5 g5 l5 = Some (g5', l6, [e5; ret_ev 0]) /\ ek e5 = K_RMW /\ at_ l6 = Idle /\
+    ctr g5' (cl g0) = ctr g5 (cl g0) - 1 /\ ssl l6 = ssl l5.
 Proof.
-  intros Hp Hn. destruct l as [pr p ws ss s rcn rsd cv0 lr lc tm ed ba nd]. cbn in *. subst p.
-  do 11 eexists. unfold tstep; cbn.
+  intros Hp Hn. destruct l as [pr p ws ss xs s rcn rsd cv0 lr lc tm ed ba nd]. cbn in *. subst p.
+  do 17 eexists. unfold tstep, srd_begin; cbn.
   repeat (split; [reflexivity|]). split; [|repeat (split; [reflexivity|])].
   - unfold ctr, set_ctr. destruct (cl g0); reflexivity.
-  - split; [apply (nth_upd_eq _ _ _ _ Hn)|]. repeat (split; [reflexivity|]). split; [|reflexivity].
+  - split; [apply in_or_app; right; left; reflexivity|]. repeat (split; [reflexivity|]).
+    split; [apply (nth_upd_eq _ _ _ _ Hn)|]. repeat (split; [reflexivity|]). split; [|reflexivity].
     unfold ctr, rd_close, cp. cbn. destruct (cl g0), (rl g2); reflexivity.
 Qed.
 
 Lemma fault_evs_kind v fs e : In e (fault_evs v fs) -> ek e = K_FAULT.
 Proof. unfold fault_evs. intros H. apply in_map_iff in H. destruct H as [c [<- _]]. reflexivity. Qed.
+Lemma sfault_evs_kind x fs e : In e (sfault_evs x fs) -> ek e = K_FAULT.
+Proof. unfold sfault_evs. intros H. apply in_map_iff in H. destruct H as [c [<- _]]. reflexivity. Qed.
 Ltac ev_kinds Hin :=
   repeat first [ apply in_app_or in Hin; destruct Hin as [Hin|Hin]
                | apply fault_evs_kind in Hin; rewrite Hin; reflexivity
+               | apply sfault_evs_kind in Hin; rewrite Hin; reflexivity
                | destruct Hin as [Hin|Hin]; [subst; reflexivity|]
                | contradiction ].
 
@@ -699,10 +843,10 @@ Lemma readers_take_no_mutex t c g l g' l' es :
   (spc (at_ l) = true \/ (at_ l = Idle /\ exists o r, prog l = o :: r /\ is_snapshot_op o = true)) ->
   omtx g' = omtx g /\ imtx g' = imtx g /\ forall e, In e es -> is_blocking_kind (ek e) = false.
 Proof.
-  intros Hs Hp. destruct l as [pr p ws ss s rcn rsd cv0 lr lc tm ed ba nd].
+  intros Hs Hp. destruct l as [pr p ws ss xs s rcn rsd cv0 lr lc tm ed ba nd].
   destruct p; cbn in Hp; try (destruct Hp as [Hp|[Hp _]]; discriminate).
   1: destruct Hp as [Hp|[_ (o & r & Hpr & Ho)]]; [discriminate|]; subst pr; destruct o; try discriminate.
-  all: step_cases Hs; unfold rd_open, rd_close; cbn; autorewrite with cow; splits; auto;
+  all: step_cases Hs; unfold rd_open, rd_close, srd_end; cbn; autorewrite with cow; splits; auto;
        intros e Hin; cbn in Hin; ev_kinds Hin.
 Qed.
 
@@ -718,9 +862,9 @@ Definition awaits (l : loc) : option bool :=
 Lemma writer_drain_exits t c g l :
   (at_ l = W_d1 \/ at_ l = W_d2) -> (forall k, awaits l = Some k -> ctr g k = 0) ->
   exists g' l' es, tstep t c g l = Some (g', l', es) /\
-                   at_ l' = (match at_ l with W_d1 => W_stc | _ => W_unlock end).
+                   at_ l' = (match at_ l with W_d1 => W_stc | _ => W_a2b end).
 Proof.
-  intros Hp Hz. destruct l as [pr p ws ss s rcn rsd cv0 lr lc tm ed ba nd]. unfold awaits in Hz. cbn in *.
+  intros Hp Hz. destruct l as [pr p ws ss xs s rcn rsd cv0 lr lc tm ed ba nd]. unfold awaits in Hz. cbn in *.
   destruct Hp; subst p; unfold tstep; cbn; rewrite (Hz _ eq_refl); cbn; do 3 eexists; split; reflexivity.
 Qed.
 (* while a writer is in a drain loop, m_countingLeft designates the counter it is NOT waiting for:
@@ -760,8 +904,8 @@ Qed.
 (* ... and such a thread can always move (in any state) until it has deregistered *)
 Lemma registered_enabled t c g l : rgpc (at_ l) = true -> exists r, tstep t c g l = Some r.
 Proof.
-  intros Hp. destruct l as [pr p ws ss s rcn rsd cv0 lr lc tm ed ba nd]. cbn in Hp.
-  destruct p; try discriminate; unfold tstep, rd_begin, rd_end, touch; cbn [at_];
+  intros Hp. destruct l as [pr p ws ss xs s rcn rsd cv0 lr lc tm ed ba nd]. cbn in Hp.
+  destruct p; try discriminate; unfold tstep, rd_begin, rd_end, touch, srd_begin; cbn [at_];
     try (destruct (zmem _ _)); eexists; reflexivity.
 Qed.
 Lemma held_snapshot_not_registered l k : at_ l = Idle -> reg k l = O /\ rdo k l = O.
@@ -774,7 +918,7 @@ Proof.
   intros HR Hl Hp. pose proof (R_inv _ _ _ _ _ _ HR) as HI.
   assert (exists r, tstep a c (gl s) la = Some r) as [r Hr]; [|exists la, r; auto].
   destruct (at_ la) eqn:Ep; try discriminate; unfold tstep; rewrite Ep;
-    unfold rd_begin, rd_end, touch; try (eexists; reflexivity).
+    unfold rd_begin, rd_end, touch, srd_begin, swr_begin; try (eexists; reflexivity).
   - destruct (zmem _ _); eexists; reflexivity.
   - (* W_lock: the inner mutex is free, because whoever holds it owns the outer one *)
     destruct (imtx (gl s)) as [b|] eqn:Em; [exfalso|eexists; reflexivity].
@@ -804,10 +948,10 @@ Proof.
   { intros v lv Hv. pose proof (Hdis _ _ Hv) as Hs.
     destruct (opc (at_ lv)) eqn:Eo.
     { exfalso. destruct (owner_enabled _ _ _ _ _ _ _ _ 0%nat HR Hv Eo) as (l0 & r0 & E0 & E1). congruence. }
-    destruct lv as [pr p ws ss s0 rcn rsd cv0 lr lc tm ed ba nd]. cbn in Eo.
-    destruct p; try discriminate; auto; unfold tstep, rd_begin, rd_end in Hs; cbn [at_ prog] in Hs; try discriminate.
+    destruct lv as [pr p ws ss xs s0 rcn rsd cv0 lr lc tm ed ba nd]. cbn in Eo.
+    destruct p; try discriminate; auto; unfold tstep, rd_begin, rd_end, srd_begin in Hs; cbn [at_ prog] in Hs; try discriminate.
     destruct pr as [|o r0]; [left; reflexivity|exfalso].
-    destruct (invoke_enabled v 0%nat (gl s) (Loc (o :: r0) Idle ws ss s0 rcn rsd cv0 lr lc tm ed ba nd) o r0 eq_refl eq_refl) as [r' Hr'].
+    destruct (invoke_enabled v 0%nat (gl s) (Loc (o :: r0) Idle ws ss xs s0 rcn rsd cv0 lr lc tm ed ba nd) o r0 eq_refl eq_refl) as [r' Hr'].
     unfold tstep in Hr'. cbn [at_ prog] in Hr'. congruence. }
   destruct (Hblocked _ _ Hl) as [Hf|Hp]; [left; exact Hf|right]. split; [exact Hp|].
   pose proof (Hdis _ _ Hl) as Hs. unfold tstep in Hs. rewrite Hp in Hs.
@@ -836,10 +980,10 @@ Definition wpc (p : pc) : nat :=
   | L_lock => 20 | L_ldc => 19 | L_inc => 18 | L_ldr => 17 | L_call => 16 | L_rb => 15 | L_re => 14 | L_dec => 13
   | X_dec => 2 | X_unlock => 1
   | HW_wb => 2 | HW_we => 1 | HI_rb => 4 | HI_re => 3 | HI_wb => 2 | HI_we => 1 | HR_rb => 2 | HR_re => 1
-  | W_lock => 12 | W_ldr => 11 | W_str => 10 | W_ldc => 9 | W_y1 => 8 | W_d1 => 7 | W_stc => 6 | W_y2 => 5 | W_d2 => 4
-  | W_unlock => 3 | W_ounlock => 2
+  | W_lock => 16 | W_ldr => 15 | W_a1b => 14 | W_a1e => 13 | W_str => 12 | W_ldc => 11 | W_y1 => 10 | W_d1 => 9 | W_stc => 8
+  | W_y2 => 7 | W_d2 => 6 | W_a2b => 5 | W_a2e => 4 | W_unlock => 3 | W_ounlock => 2
   | C_unlock => 1
-  | S_ldc => 4 | S_inc => 3 | S_ldr => 2 | S_dec => 1 | SR_rb => 2 | SR_re => 1
+  | S_ldc => 6 | S_inc => 5 | S_ldr => 4 | S_rb => 3 | S_re => 2 | S_dec => 1 | SR_rb => 2 | SR_re => 1
   end%nat.
 Definition wloc (l : loc) : nat := (21 * length (prog l) + wpc (at_ l))%nat.
 Definition mu (s : sysR) : nat := list_sum (map wloc (thr s)).
@@ -852,8 +996,8 @@ Definition is_retry (g : glob) (l : loc) : bool :=
 Lemma wloc_step t c g l g' l' es : tstep t c g l = Some (g', l', es) ->
   if is_retry g l then wloc l' = S (wloc l) else (wloc l' < wloc l)%nat.
 Proof.
-  intros Hs. destruct l as [pr p ws ss s rcn rsd cv0 lr lc tm ed ba nd].
-  destruct p; step_cases Hs; unfold is_retry, wloc; cbn [at_ prog lcl length wpc set_at set_tmp set_cv set_rcnt set_lrl set_lcl set_wsl set_ssl set_ced];
+  intros Hs. destruct l as [pr p ws ss xs s rcn rsd cv0 lr lc tm ed ba nd].
+  destruct p; step_cases Hs; unfold is_retry, wloc; cbn [at_ prog lcl length wpc set_at set_tmp set_cv set_rcnt set_lrl set_lcl set_wsl set_ssl set_ced set_nsl set_rside];
     try match goal with H : (_ =? 0) = _ |- _ => rewrite H end; cbn [negb]; try lia.
   all: cbn [lcl] in *; match goal with H : (?a =? 0) = _ |- _ => rewrite H; cbn; lia end.
 Qed.
@@ -908,7 +1052,7 @@ Lemma throw_path t c g l g' l' es : tstep t c g l = Some (g', l', es) ->
   | _ => True
   end.
 Proof.
-  intros Hs. destruct l as [pr p ws ss s rcn rsd cv0 lr lc tm ed ba nd].
+  intros Hs. destruct l as [pr p ws ss xs s rcn rsd cv0 lr lc tm ed ba nd].
   destruct p; try exact I; step_cases Hs; cbn; unfold rd_close, ctr, cp; cbn;
     try match goal with H : zmem _ _ = _ |- _ => rewrite H end; auto.
   all: repeat split; auto; destruct rcn, rsd; reflexivity.
@@ -957,7 +1101,8 @@ Proof. intros HR. apply (I_nofault _ _ (R_inv _ _ _ _ _ _ HR)). Qed.
 (* exclusion on the two copies of the inner lr_guarded (C03 technique): a reader window and a writer window
    are never open on the same copy *)
 Definition wr_window (l : loc) (x : bool) : Prop :=
-  (at_ l = W_str /\ x = negb (lrl l)) \/ (at_ l = W_unlock /\ x = lrl l).
+  ((at_ l = W_a1b \/ at_ l = W_a1e \/ at_ l = W_str) /\ x = negb (lrl l)) \/
+  ((at_ l = W_a2b \/ at_ l = W_a2e \/ at_ l = W_unlock) /\ x = lrl l).
 Definition rd_window (l : loc) (x : bool) : Prop := rwpc (at_ l) = true /\ rside l = x.
 Lemma inner_exclusion nw ns x pl progs s r lr w lw y :
   R nw ns x pl progs s -> nth_error (thr s) r = Some lr -> nth_error (thr s) w = Some lw ->
@@ -965,19 +1110,40 @@ Lemma inner_exclusion nw ns x pl progs s r lr w lw y :
 Proof.
   intros HR Hr Hw Hy [Hp Hs]. pose proof (R_inv _ _ _ _ _ _ HR) as HI.
   pose proof (I_rw _ _ HI _ _ Hr Hp) as Hk. unfold hok in Hk.
-  assert (Hi : ipc (at_ lw) = true) by (destruct Hy as [[-> _]|[-> _]]; reflexivity).
+  assert (Hi : ipc (at_ lw) = true) by (destruct Hy as [[[-> |[-> | ->]] _]|[[-> |[-> | ->]] _]]; reflexivity).
   pose proof (I_w _ _ HI _ _ Hw Hi) as Hwk. unfold wok in Hwk.
-  destruct Hy as [[Ep Ey]|[Ep Ey]]; rewrite Ep in Hwk.
-  - destruct Hwk as (E1 & E2 & _). rewrite E2 in Hk. subst y. rewrite Hk in Hs. rewrite <- E1 in Hs.
+  destruct Hy as [[Ep Ey]|[Ep Ey]].
+  - assert (E : lrl lw = rl (gl s) /\ gph (gl s) = PA) by (destruct Ep as [Ep|[Ep|Ep]]; rewrite Ep in Hwk; tauto).
+    destruct E as [E1 E2]. rewrite E2 in Hk. subst y. rewrite Hk in Hs. rewrite <- E1 in Hs.
     destruct (lrl lw); discriminate.
-  - destruct Hwk as (E1 & E2 & _). rewrite E2 in Hk. subst y. rewrite Hk, E1 in Hs.
+  - assert (E : lrl lw = negb (rl (gl s)) /\ gph (gl s) = PA) by (destruct Ep as [Ep|[Ep|Ep]]; rewrite Ep in Hwk; tauto).
+    destruct E as [E1 E2]. rewrite E2 in Hk. subst y. rewrite Hk, E1 in Hs.
     destruct (rl (gl s)); discriminate.
 Qed.
+(* the observable windows: while the write window of an assignment to a shared_ptr object is open (between its
+   K_WR_BEGIN and K_WR_END) no read window is open on it (no lock_shared is between K_RD_BEGIN and K_RD_END of its
+   copy), and vice versa; the wrapper's own overlap reports (K_FAULT on the object) are covered by [no_fault] *)
+Lemma slot_windows_disjoint nw ns x pl progs s y :
+  R nw ns x pl progs s -> xwr (cp (gl s) y) = true -> xrd (cp (gl s) y) = 0 /\ nrd (cp (gl s) y) = 0.
+Proof.
+  intros HR Hx. pose proof (R_inv _ _ _ _ _ _ HR) as HI.
+  destruct (I_vis _ _ HI) as (_ & _ & V3).
+  assert (Ey : y = negb (rl (gl s))) by (destruct y, (rl (gl s)); cbn in *; try reflexivity; congruence).
+  assert (Hpa : gph (gl s) = PA).
+  { destruct (imtx (gl s)) as [a|] eqn:Em.
+    - destruct (I_iheld _ _ HI _ Em) as [la [Ha Hi]]. pose proof (I_w _ _ HI _ _ Ha Hi) as Hw. unfold wok, oth in Hw.
+      rewrite <- Ey in Hw. destruct (at_ la); try discriminate; destr_and; try congruence.
+    - destruct (I_idle _ _ HI Em) as (E & _). exact E. }
+  pose proof (nrd_other_pa _ _ HI Hpa) as H1. pose proof (xrd_le_nrd _ _ HI y) as H2. unfold oth in H1. rewrite <- Ey in H1.
+  assert (0 <= xrd (cp (gl s) y)) by (rewrite (I_xrd _ _ HI); lia).
+  split; lia.
+Qed.
+
 
 (* ---------- C04: the version ledger ---------- *)
 (* second layer: a version that exists and is not destroyed is referenced (by a copy or a snapshot) or is
    the private version of the thread that owns the outer mutex *)
-Definition ppc (p : pc) : bool := match p with L_dec | W_lock | W_ldr | C_unlock => true | _ => false end.
+Definition ppc (p : pc) : bool := match p with L_dec | W_lock | W_ldr | W_a1b | W_a1e | C_unlock => true | _ => false end.
 Definition pown (l : loc) (v : nat) : Prop := In (Some v) (wsl l) \/ (cv l = v /\ ppc (at_ l) = true).
 Definition live (g : glob) (ls : list loc) : Prop :=
   forall v, (v < next g)%nat -> freed (heap g v) = false ->
@@ -994,11 +1160,11 @@ Lemma version_step t c g l g' l' es v :
 Proof.
   intros Hs (Hn1 & Hn0 & Hk) Hok Hcp Hlt Hf.
   pose proof (Hcp true) as Hcp1. pose proof (Hcp false) as Hcp0.
-  destruct l as [pr p ws ss s rcn rsd cv0 lr lc tm ed ba nd]. set (PC := p).
+  destruct l as [pr p ws ss xs s rcn rsd cv0 lr lc tm ed ba nd]. set (PC := p).
   destruct p; step_cases Hs; unfold owns, pown in *; cbn in Hk, Hn0, Hok.
   all: try (specialize (Hn0 eq_refl)); try (specialize (Hok eq_refl)).
   all: try (destruct Hok as (A & B & C); cbn in C; unfold pvok in C; destr_and).
-  all: unfold rd_open, rd_close, wr_close, cp in *; cbn in *; autorewrite with cow in *; cbn in *.
+  all: unfold rd_open, rd_close, wr_open, wr_close, srd_end, cp in *; cbn in *; autorewrite with cow in *; cbn in *.
   all: try (left; splits; solve [auto | intros [Hin|[? ?]]; [auto|discriminate] | intros [Hin|[? ?]]; auto]).
   all: try (assert (Hno : forall w, ~ In (Some w) ws) by (intros w; apply nwhl_zero_noin; exact Hn0)).
   all: try match goal with H : nth_error ?w ?i = Some (Some ?n) |- context [In _ ?w] =>
